@@ -40,7 +40,7 @@ func (x *Exec) bigVal(st *State, ref string) string {
 
 func (x *Exec) setBigVal(st *State, ref, v string) {
 	h := x.heapTerm(st, bigHeap, "(Array Int Int)")
-	st.heaps[bigHeap] = mkStore(h, ref, v)
+	x.setHeap(st, bigHeap, mkStore(h, ref, v))
 }
 
 // seqOf abstracts the contents of a byte slice as a value of sort Bytes with
